@@ -1023,9 +1023,13 @@ class Interp:
             # x[:n].ljust(n, pad) has exactly n bytes
             return [sym.op("item", it, i) for i in range(it[3])]
         if is_sym(it):
+            if sym.kind(it) in ("int", "bool"):
+                raise Raised(ExcVal("TypeError", args=("'int' object is not iterable",)))
             raise Unsupported(f"iteration over symbolic {it!r}")
         if isinstance(it, (list, tuple, str, bytes, bytearray, range, dict, set, frozenset)):
             return it
+        if it is None or isinstance(it, (int, float)) or isinstance(it, (Closure, PyFn, ClassVal)):
+            raise Raised(ExcVal("TypeError", args=(f"'{type(it).__name__ if not isinstance(it, (Closure, PyFn)) else 'function'}' object is not iterable",)))
         if isinstance(it, SymBytes):
             if is_sym(it.value):
                 raise Unsupported("iteration over symbolic bytes")
@@ -1633,6 +1637,8 @@ class Interp:
             return self.call_ext(f, args, kwargs, node, env, mod)
         if isinstance(f, NewTypeVal):
             return args[0]
+        if is_sym(f) and sym.kind(f) in ("int", "bool", "str", "bytes"):
+            raise Raised(ExcVal("TypeError", args=(f"'{sym.kind(f)}' object is not callable",)))
         if is_sym(f):
             flat = [a for a in args]
             self.effect("call", f, tuple(flat))
@@ -1641,6 +1647,8 @@ class Interp:
             return self.call_safe_builtin(f, args, kwargs)
         if f is SAFE_BUILTINS["len"].__class__:
             return None
+        if f is None or isinstance(f, (int, float, str, bytes, list, tuple, dict)) or isinstance(f, SymDict) or (is_sym(f) and False):
+            raise Raised(ExcVal("TypeError", args=(f"'{type(f).__name__}' object is not callable",)))
         raise Unsupported(f"call of {f!r}")
 
     def call_safe_builtin(self, f, args, kwargs):
@@ -2081,6 +2089,11 @@ class Interp:
 
     def isinstance(self, x, c):
         cs = c if isinstance(c, tuple) else (c,)
+        for t in cs:
+            # isinstance(SomeClass, an_instance): 'isinstance() arg 2 must be a type, a tuple of types, or a union'
+            if isinstance(t, Rec) or isinstance(t, (int, str, bytes, list, dict)) and not isinstance(t, bool) or t is None or isinstance(t, (SymDict,)) \
+                    or (is_sym(t) and sym.kind(t) in ("int", "str", "bytes", "bool")):
+                raise Raised(ExcVal("TypeError", args=("isinstance() arg 2 must be a type, a tuple of types, or a union",)))
         if self.isinstance_hook is not None:
             r = self.isinstance_hook(x, cs)
             if r is not None:
